@@ -126,8 +126,24 @@ mut("m18-stl-second-tti-write-error-ignored", "C18", "a sink failure inside the 
 			return
 		}
 		err = nil"""))
-mut("m18-srt-bufio-writer-never-flushed", "C18", "any output larger than the bufio buffer / any sink fault",
-    ("srt.go", """	if _, err = o.Write(c); err != nil {""", """	if _, err = bufio.NewWriterSize(o, 512).Write(c); err != nil {"""),
+mut("m18-srt-bufio-flush-error-ignored", "C18", "a sink failure while writing an SRT document smaller than the bufio buffer",
+    ("srt.go", """	if _, err = o.Write(c); err != nil {
+		err = fmt.Errorf("astisub: writing failed: %w", err)
+		return
+	}
+	return
+}
+
+func (l Line) srtBytes()""", """	var bw = bufio.NewWriter(o)
+	if _, err = bw.Write(c); err != nil {
+		err = fmt.Errorf("astisub: writing failed: %w", err)
+		return
+	}
+	bw.Flush()
+	return
+}
+
+func (l Line) srtBytes()"""),
     ("srt.go", 'import (\n\t"fmt"', 'import (\n\t"bufio"\n\t"fmt"'))
 mut("m18-webvtt-short-write-accepted", "C18", "a sink that accepts only part of the document",
     ("webvtt.go", """	if _, err = o.Write(c); err != nil {
@@ -201,15 +217,21 @@ mut("m19-revert-d6-ssa-format-map-order", "C19", "styles with different attribut
 mut("m19-revert-d7-webvtt-style-map-order", "C19", "WebVTT style blocks spread over several styles and a non-sorted map order",
     ("webvtt.go", """	sort.Strings(styleIDs)
 	for _, id := range styleIDs {""", """	for _, id := range styleIDs {"""))
-mut("m19-ttml-styles-not-sorted", "C19", ">= 2 styles and a non-sorted map order",
+mut("m19-ttml-styles-sorted-only-when-few", "C19", "> 3 styles and a non-sorted map order",
     ("ttml.go", """		k = append(k, style.ID)
 	}
 	sort.Strings(k)""", """		k = append(k, style.ID)
+	}
+	if len(k) <= 3 {
+		sort.Strings(k)
 	}"""))
-mut("m19-webvtt-regions-not-sorted", "C19", ">= 2 regions and a non-sorted map order",
+mut("m19-webvtt-regions-sorted-only-when-few", "C19", "> 2 regions and a non-sorted map order",
     ("webvtt.go", """	sort.Strings(k)
 	for _, id := range k {
-		c = append(c, []byte("Region: id="+s.Regions[id].ID)...)""", """	for _, id := range k {
+		c = append(c, []byte("Region: id="+s.Regions[id].ID)...)""", """	if len(k) <= 2 {
+		sort.Strings(k)
+	}
+	for _, id := range k {
 		c = append(c, []byte("Region: id="+s.Regions[id].ID)...)"""))
 mut("m19-ssa-style-lines-not-sorted", "C19", ">= 2 styles and a non-sorted map order",
     ("ssa.go", """		sort.Strings(styleNames)
@@ -219,29 +241,28 @@ mut("m19-srt-writer-renumbers-index", "C19", "a cue whose Index differs from its
 		// Add time boundaries""", """	for k, v := range s.Items {
 		v.Index = k + 1
 		// Add time boundaries"""))
-mut("m19-webvtt-writer-sorts-items-in-place", "C19", "an unordered cue list; observed on the list / by the next writer",
-    ("webvtt.go", """	// Add header
-	var c []byte
-	c = append(c, []byte("WEBVTT")...)""", """	// Make sure cues are ordered
-	sort.SliceStable(s.Items, func(i, j int) bool { return s.Items[i].StartAt < s.Items[j].StartAt })
-
-	// Add header
-	var c []byte
-	c = append(c, []byte("WEBVTT")...)"""))
+mut("m19-webvtt-writer-trims-comments-in-place", "C19", "a cue comment with surrounding white space; observed on the list after writing / by the next writer",
+    ("webvtt.go", """			for _, comment := range item.Comments {
+				c = append(c, []byte(comment)...)""", """			for idxComment, comment := range item.Comments {
+				comment = strings.TrimSpace(comment)
+				item.Comments[idxComment] = comment
+				c = append(c, []byte(comment)...)"""))
 mut("m19-stl-writer-uses-real-clock", "C19", "metadata without dates and a simulated clock that is not today",
     ("stl.go", """		creationDate:             Now(),""", """		creationDate:             time.Now(),"""))
-mut("m19-stl-writer-ignores-supplied-revision-date", "C19", "metadata with a revision date and two different clock values",
+mut("m19-stl-writer-ignores-lone-revision-date", "C19", "metadata with a revision date but no creation date, and two different clock values",
     ("stl.go", """		if s.Metadata.STLRevisionDate != nil {
 			g.revisionDate = *s.Metadata.STLRevisionDate
-		}""", """		if s.Metadata.STLRevisionDate != nil && s.Metadata.STLCreationDate == nil {
+		}""", """		if s.Metadata.STLRevisionDate != nil && s.Metadata.STLCreationDate != nil {
 			g.revisionDate = *s.Metadata.STLRevisionDate
 		}"""))
-mut("m19-ttml-pointer-derived-id", "C19", "two builds of the same list (different addresses)",
+mut("m19-ttml-pointer-derived-id", "C19", "a cue with comments, and two builds of the same list (different addresses)",
     ("ttml.go", """			TTMLOutStyleAttributes: ttmlOutStyleAttributesFromStyleAttributes(item.InlineStyle),
 		}
 """, """			TTMLOutStyleAttributes: ttmlOutStyleAttributesFromStyleAttributes(item.InlineStyle),
 		}
-		ttmlSubtitle.ID = fmt.Sprintf("s%x", uintptr(unsafe.Pointer(item))&0xffff)
+		if len(item.Comments) > 0 {
+			ttmlSubtitle.ID = fmt.Sprintf("s%x", uintptr(unsafe.Pointer(item))&0xffff)
+		}
 """),
     ("ttml.go", 'import (\n\t"encoding/xml"', 'import (\n\t"unsafe"\n\t"encoding/xml"'))
 mut("m19-stl-creation-date-memoised", "C19", "a second STL write after the clock moved to another day",
